@@ -72,6 +72,8 @@ pub struct HalState {
     pub poison: u8,
     pub live_dma: usize,
     pub live_shares: usize,
+    /// live shares by caller (virtual) address -> region index
+    pub live_by_vaddr: BTreeMap<usize, usize>,
 }
 
 pub const DMA_BASE_DEFAULT: u64 = 0x0000_0012_3400_0000; // > 4 GiB so that high words matter
@@ -93,6 +95,7 @@ impl HalState {
             poison: 0xdd,
             live_dma: 0,
             live_shares: 0,
+            live_by_vaddr: BTreeMap::new(),
         }
     }
 
@@ -217,6 +220,18 @@ impl HalState {
         Ok(())
     }
 
+    /// A live share whose caller buffer overlaps `[lo, hi)`.
+    pub fn live_share_overlapping(&self, lo: usize, hi: usize) -> Option<&Region> {
+        // buffers are at most 2^32 bytes; look at the nearest share starting below `hi`
+        for (&va, &i) in self.live_by_vaddr.range(..hi).rev().take(4) {
+            let r = &self.regions[i];
+            if va < hi && va + r.len > lo {
+                return Some(r);
+            }
+        }
+        None
+    }
+
     pub fn live_share_count(&self) -> usize {
         self.live_shares
     }
@@ -267,7 +282,9 @@ pub struct LHal;
 fn dma_alloc_impl(w: &mut World, pages: usize, dir: BufferDirection, ap: bool) -> (u64, NonNull<u8>) {
     let h = &mut w.hal;
     h.alloc_calls += 1;
-    if h.fail_alloc_at == Some(h.alloc_calls) {
+    // a platform has finite DMA memory: requests above 16 MiB fail (keeps hostile-device cases,
+    // where a device reports absurd sizes, cheap)
+    if h.fail_alloc_at == Some(h.alloc_calls) || pages > 4096 {
         h.log.push(HalEv::AllocFailed { pages });
         return (0, NonNull::dangling());
     }
@@ -381,6 +398,7 @@ fn share_impl(w: &mut World, buf: NonNull<[u8]>, dir: BufferDirection, ap: bool)
     });
     h.live.insert(paddr, idx);
     h.all.insert(paddr, idx);
+    h.live_by_vaddr.insert(vaddr, idx);
     h.live_shares += 1;
     h.log.push(HalEv::Share(idx));
     paddr
@@ -425,6 +443,9 @@ fn unshare_impl(w: &mut World, paddr: u64, buf: NonNull<[u8]>, dir: BufferDirect
     }
     h.regions[idx].live = false;
     h.live.remove(&paddr);
+    if h.live_by_vaddr.get(&v0) == Some(&idx) {
+        h.live_by_vaddr.remove(&v0);
+    }
     h.live_shares -= 1;
     if bounce {
         unsafe { std::ptr::write_bytes(r.host, h.poison, r.len) };
